@@ -498,6 +498,10 @@ def reserve_promise(res, facts):
                         ok, how = True, "rebuild_vec(.., len, .., off).reserve(additional): capacity >= len + off + additional"
                     elif isinstance(k, tuple) and k[0] == "bin" and k[1] == "Sub" and contains_new_plus(k[2], off) and is_call(k[3], "len") and strip_ref(k[3][2][0]) == V:
                         ok, how = True, "v.reserve(X - v.len()) with X >= len + additional + off: capacity >= X"
+                    elif isinstance(k, tuple) and k[0] == "bin" and k[1] == "Sub" and contains_new_plus(k[2], off) and any(
+                            nm2 == "set_len" and "Vec" in p2 and strip_ref(a2[0]) == V and canon(uncast(a2[1])) == canon(uncast(k[3])) and cfg.loc_dominates((bi2, 10 ** 6), (bi, 0))
+                            for (bi2, p2, nm2, a2) in calls):
+                        ok, how = True, "v.set_len(E); v.reserve(X - E) with X >= len + additional + off: capacity >= X"
         elif isinstance(C, tuple) and C[0] == "bin" and C[1] == "Add" and C[2] == cap:
             off = C[3]
             want = ("bin", "Add", ("bin", "Sub", cap, ln), off)
